@@ -116,18 +116,39 @@ class MultiFunction(Generic[T, P]):
     def _find_and_cache_method(self, key: T) -> Method[T, P] | None:
         """Find and cache the best method for dispatch value `key`."""
         with self._lock:
-            best_key: T | None = None
             best_method: Method | None = None
-            for method_key, method in self._methods.items():
-                if self._is_a(key, method_key):
-                    if best_key is None or self._precedes(method_key, best_key):
-                        best_key, best_method = method_key, method
-                    if not self._precedes(best_key, method_key):
-                        raise runtime.RuntimeException(
-                            "Cannot resolve a unique method for dispatch value "
-                            f"'{key}'; '{best_key}' and '{method_key}' both match and "
-                            "neither is preferred"
-                        )
+            candidates = [
+                (method_key, method)
+                for method_key, method in self._methods.items()
+                if self._is_a(key, method_key)
+            ]
+            if candidates:
+                # The method selected is the one whose key precedes the key of every
+                # other matching method. Checking each candidate against all of the
+                # others (rather than folding over them) keeps the outcome independent
+                # of the iteration order of the method table.
+                for method_key, method in candidates:
+                    if all(
+                        other_key is method_key or self._precedes(method_key, other_key)
+                        for other_key, _ in candidates
+                    ):
+                        best_method = method
+                        break
+                else:
+                    best_key, other_key = next(
+                        (
+                            (k1, k2)
+                            for k1, _ in candidates
+                            for k2, _ in candidates
+                            if k1 is not k2 and not self._precedes(k1, k2)
+                        ),
+                        (candidates[0][0], candidates[-1][0]),
+                    )
+                    raise runtime.RuntimeException(
+                        "Cannot resolve a unique method for dispatch value "
+                        f"'{key}'; '{best_key}' and '{other_key}' both match and "
+                        "neither is preferred"
+                    )
 
             if best_method is None:
                 best_method = self._methods.val_at(self._default)
